@@ -23,38 +23,48 @@ CLAUSES = ["JudgeAll"]
 ERRORS = (ValueError, AssertionError, RuntimeError, IndexError, KeyError, FloatingPointError, ZeroDivisionError)
 
 
-def _m_extrude_1d_numbering(v):
-    """extrude_grid raises on a 1D base whose face (= node) numbering is not monotone along the line: two
-    neighbouring cells in which the shared face has the largest (or the smallest) index of both cells"""
-    c = v["case"]
-    if v["clause"] != "Computes" or c["kind"] != "extrude" or c["parent"]["dim"] != 1 or not c["raised"]:
-        return False
-    cells = [sorted(f for f, _ in cf) for cf in c["parent"]["cf"]]
-    for i, a in enumerate(cells):
-        for b in cells[i + 1:]:
-            sh = set(a) & set(b)
-            if len(sh) == 1:
-                f = next(iter(sh))
-                if a.index(f) == b.index(f):
-                    return True
-    return False
-
-
-MATCHERS = {"extrude_1d_nonmonotone_numbering": _m_extrude_1d_numbering}
-
-
 def _quiet(fn, *a, **k):
     with warnings.catch_warnings():
         warnings.simplefilter("ignore")
         return fn(*a, **k)
 
 
-def export(g, scale=1):
+def _export(g, scale=1):
     if g.dim == 0:
         cc = np.asarray(g.cell_centers, dtype=float) * scale
         return dict(dim=0, nodes=[[int(round(v)) for v in cc[:, j]] for j in range(cc.shape[1])], fn=[],
                     cf=[[] for _ in range(cc.shape[1])])
     return G.export(g, scale)
+
+
+def export(g, scale=1):
+    return _export(g, scale)
+
+
+def _nodes_of(g):
+    return np.asarray(g.cell_centers if g.dim == 0 else g.nodes, dtype=float)
+
+
+def export_pair(gp, gc, z=None):
+    """parent and child in units of 1/S for the smallest S in 1, 2, 3, 4, 6, 12 that makes all coordinates (and z)
+    integers.  For the families used here S = 1 whenever porepy is right; if no S works the child is rounded to the
+    1/12 lattice and the case is flagged inexact (clause OnLattice)."""
+    arrs = [_nodes_of(gp), _nodes_of(gc)] + ([np.asarray(z, dtype=float)] if z is not None else [])
+    for S in (1, 2, 3, 4, 6, 12):
+        if all(np.all(np.abs(a * S - np.round(a * S)) < 1e-9) for a in arrs):
+            return _snap(gp, S), _snap(gc, S), S, False
+    return _snap(gp, 12), _snap(gc, 12), 12, True
+
+
+def _snap(g, S):
+    import copy
+
+    h = copy.copy(g)
+    if g.dim == 0:
+        h.cell_centers = np.round(np.asarray(g.cell_centers, dtype=float) * S) / S
+    else:
+        h.nodes = np.round(np.asarray(g.nodes, dtype=float) * S) / S
+    return _export(h, S)
 
 
 # ---------------------------------------------------------------------------------------------------
@@ -66,7 +76,8 @@ def case_refine1d(rec):
     parent = export(g)
     try:
         child = _quiet(pp.refinement.refine_grid_1d, g, rec["ratio"])
-        return [dict(kind="refine1d", parent=parent, child=export(child), raised=False, ratio=rec["ratio"])]
+        pj, cj, S, inexact = export_pair(g, child)
+        return [dict(kind="refine1d", parent=pj, child=cj, raised=False, ratio=rec["ratio"], inexact=inexact)]
     except ERRORS as e:
         return [dict(kind="refine1d", parent=parent, child=parent, raised=True, ratio=rec["ratio"], error=repr(e))]
 
@@ -79,7 +90,8 @@ def case_remesh1d(rec):
     parent = export(g)
     try:
         child = _quiet(pp.refinement.remesh_1d, g, rec["nnodes"])
-        return [dict(kind="remesh1d", parent=parent, child=export(child), raised=False, nnodes=rec["nnodes"])]
+        pj, cj, S, inexact = export_pair(g, child)
+        return [dict(kind="remesh1d", parent=pj, child=cj, raised=False, nnodes=rec["nnodes"], inexact=inexact)]
     except ERRORS as e:
         return [dict(kind="remesh1d", parent=parent, child=parent, raised=True, nnodes=rec["nnodes"], error=repr(e))]
 
@@ -91,7 +103,8 @@ def case_refinetri(rec):
     parent = export(g)
     try:
         child, pmap = _quiet(pp.refinement.refine_triangle_grid, g)
-        return [dict(kind="refinetri", parent=parent, child=export(child), raised=False,
+        pj, cj, S, inexact = export_pair(g, child)
+        return [dict(kind="refinetri", parent=pj, child=cj, raised=False, inexact=inexact,
                      map=[int(p) + 1 for p in pmap])]
     except ERRORS as e:
         return [dict(kind="refinetri", parent=parent, child=parent, raised=True, map=[], error=repr(e))]
@@ -103,7 +116,8 @@ def _extrude_case(g, z, result):
     if isinstance(result, Exception):
         return dict(kind="extrude", parent=parent, child=parent, raised=True, z=zi, cellmap=[], error=repr(result))
     child, cmap, _ = result
-    return dict(kind="extrude", parent=parent, child=export(child), raised=False, z=zi,
+    pj, cj, S, inexact = export_pair(g, child, z)
+    return dict(kind="extrude", parent=pj, child=cj, raised=False, z=[S * v for v in zi], inexact=inexact,
                 cellmap=[[int(k) + 1 for k in row] for row in cmap])
 
 
@@ -152,12 +166,12 @@ def case_structured(rec):
         gf, _ = _quiet(pp.refinement.refine_triangle_grid, g)
     _quiet(g.compute_geometry)
     _quiet(gf.compute_geometry)
-    parent, child = export(g), export(gf)
+    parent, child, S, inexact = export_pair(g, gf)
     try:
         m = _quiet(pp.refinement.structured_refinement, g, gf).tocsr()
         rows = [[int(c) + 1 for c in m.indices[m.indptr[k]:m.indptr[k + 1]]] for k in range(m.shape[0])]
         rows += [[] for _ in range(gf.num_cells - len(rows))]
-        return [dict(kind="structured", parent=parent, child=child, raised=False, rows=rows)]
+        return [dict(kind="structured", parent=parent, child=child, raised=False, rows=rows, inexact=inexact)]
     except ERRORS as e:
         return [dict(kind="structured", parent=parent, child=child, raised=True, rows=[], error=repr(e))]
 
@@ -251,6 +265,19 @@ def records(ctx, emitted):
     for name in ("hanging", "mixed", "tri5", "lshape"):
         for z in (Z_SEQS[1], Z_SEQS[5]) if not q else (Z_SEQS[1],):
             recs.append(dict(kind="extrude", parent=dict(base=dict(kind="patch", name=name, z=0)), z=z))
+    # structured_refinement in 3D: structured tetrahedral grids on a box and on the box with halved spacing
+    for axes in ([[0, 1], [0, 1], [0, 1]], [[0, 1], [0, 2], [1, 2]]) if q else ([[0, 1], [0, 1], [0, 1]], [[0, 1], [0, 2], [1, 2]], [[0, 1, 2], [0, 1], [0, 1]]):
+        fine = [sorted(set(2 * a for a in ax) | {ax[i] + ax[i + 1] for i in range(len(ax) - 1)}) for ax in axes]
+        recs.append(dict(kind="structured", parent=dict(base=dict(kind="simplex", axes=axes), ops=[dict(op="scale", k=2)]),
+                         fine=dict(how="build", recipe=dict(base=dict(kind="simplex", axes=fine)))))
+    # 1D bases whose node numbering is not monotone along the line (every numbering of 3 nodes, some of 4)
+    for order in ([0, 2, 1], [1, 0, 2], [1, 2, 0], [2, 0, 1], [2, 1, 0], [3, 1, 0, 2], [0, 3, 1, 2]):
+        ax = [0, 1, 3] if len(order) == 3 else [0, 2, 3, 4]
+        for d, z in (([1, 0, 0], Z_SEQS[3]), ([0, -1, 0], Z_SEQS[5])):
+            recs.append(dict(kind="extrude", z=z, parent=dict(base=dict(kind="line", axis=ax, dir=d, origin=[1, -1, 0],
+                                                                         order=order, flip=False))))
+        recs.append(dict(kind="refine1d", ratio=2, parent=dict(base=dict(kind="line", axis=[2 * a for a in ax], dir=[1, 2, 2],
+                                                                          origin=[0, 0, 0], order=order, flip=True))))
     for pt in ([1, 2, 0], [-2, 0, 0]):
         for z in (Z_SEQS[2], Z_SEQS[6], Z_SEQS[0]):
             recs.append(dict(kind="extrude", parent=dict(base=dict(kind="point", pt=pt)), z=z))
@@ -267,7 +294,7 @@ def judge(ctx, recs, tag):
     for r in recs:
         for c in RUNNERS[r["kind"]](r):
             items.append((r, c))
-    cases = [{k: v for k, v in c.items() if k != "error"} for _, c in items]
+    cases = [dict({k: v for k, v in c.items() if k != "error"}, inexact=bool(c.get("inexact", False))) for _, c in items]
     out = ctx.judge("J_Refine", cases, CLAUSES, tag=tag)
     outside = {v["case"] for v in out if v.get("tag") == "outside"}
     for i, (r, c) in enumerate(items, 1):
